@@ -338,8 +338,8 @@ def corr_nnd_direct(ctx, ncases, second_row_is_q, modes=(True, False)):
         data = int_data(rng, n, dim, kind)
         mname, dist = rng.choice(metrics)
         maxc = rng.choice([1, 2, 4, min(60, k)])
-        iters = rng.choice([0, 1, 2, 5])
-        delta = rng.choice([0.0, 0.001, 0.1])
+        iters = rng.choice([0, 1, 2, 5, 8])
+        delta = rng.choice([0.0, 0.0, 0.001, 0.1, 0.05, 0.25])
         T = rng.choice([1, 2, 3, 4])
         low = rng.choice(list(modes))
         st = [rng.randrange(-2 ** 31 + 1, 2 ** 31 - 1) for _ in range(3)]
